@@ -304,6 +304,12 @@ def crash_key(diag, status):
             a.group(4).decode("latin-1"), a.group(3).decode(), a.group(1).decode(), a.group(2).decode())
     if status == "timeout":
         return None, "timeout"
+    fl = re.search(rb"(input in flex scanner failed|flex scanner jammed|fatal flex scanner internal error[^\n]*|"
+                   rb"out of dynamic memory in [a-z_()]+|bad buffer in [a-z_()]+|input buffer overflow[^\n]*)", diag)
+    if fl and status == "exit_2":
+        msg = fl.group(1).decode("latin-1")
+        return "scanner:flex-fatal-exit:%s" % slug(msg, 4), \
+            "the generated scanner called exit(2) from YY_FATAL_ERROR (\"%s\"): the compilation never returns to its caller" % msg
     return "%s:%s" % (fn, status), "child ended with %s" % status
 
 
@@ -725,10 +731,10 @@ def write_use_graph(root, g, main, with_code, broken=None):
         nm = modname(i)
         lines = ["use %s" % modname(j) for j in us]
         if with_code:
-            body = "module %s {\n    func f%s() -> int { %d }\n}\n" % (nm, nm, i)
+            uses = "".join("    %s\n" % l for l in lines)
+            txt = "module %s {\n%s    func f%s() -> int { %d }\n}\n" % (nm, uses, nm, i)
             if broken is not None and i == broken:
-                body = "module %s {\n    func f%s( -> int { zz }\n" % (nm, nm)
-            txt = "\n".join(lines) + "\n" + body
+                txt = "module %s {\n%s    func f%s( -> int { zz }\n" % (nm, uses, nm)
         else:
             txt = "\n".join(lines) + "\n"
         with open(os.path.join(root, nm + ".nev"), "w") as f:
@@ -1104,8 +1110,10 @@ def replay_case(ctx, drv, workdir):
         path = os.path.join(workdir, "replaymods")
         os.makedirs(path, exist_ok=True)
         for nm, txt in r["modules"].items():
-            with open(os.path.join(path, nm), "w") as f:
-                f.write(txt)
+            with open(os.path.join(path, nm), "wb") as f:
+                f.write(txt.encode("latin-1"))
+        for nm in r.get("module_directories", []):
+            os.makedirs(os.path.join(path, nm), exist_ok=True)
     c = Case("replay", r.get("class", "replay"), data, r.get("mode", "str"), path)
     obs = run_cases(drv, [c], workdir, timeout=30)
     ver = classify(list(obs.values()))
@@ -1251,12 +1259,15 @@ def _run(ctx, drv, pdrv, workdir, t0):
                   "observed": {"status": o.status if o else None, "ret": o.ret if o else None,
                                "diagnostics_tail": (o.diag[-1800:].decode("latin-1") if o else None)}}
         if c.path and not c.path.startswith(common.REPO) and os.path.isdir(c.path):
-            mods = {}
+            mods, dirs = {}, []
             for fn in sorted(os.listdir(c.path))[:60]:
                 fp = os.path.join(c.path, fn)
                 if os.path.isfile(fp):
                     mods[fn] = open(fp, "rb").read().decode("latin-1")
+                else:
+                    dirs.append(fn)
             replay["modules"] = mods
+            replay["module_directories"] = dirs
         ctx.violation(key or ("hang:%s" % c.cls), what, replay)
     ctx.coverage["rule"] = (
         "every input is compiled by the tree's libnev.a (ASan+UBSan build, -DNEVER_VERIF) in a forked child with a time limit; "
